@@ -30,7 +30,7 @@ def check(pid, tier, args):
     run.cov["exhaustive"] = False
     run.cov["bounds"] = {"pixels_per_pair": len(lines) // 16,
                          "quick": "5^3 lattice, 32 greys, 6 gamut edges x 16, 250 seeded, alpha sweep (step 5) on 2 colours",
-                         "thorough": "32^3 lattice, all greys, all 6x256 gamut-edge colours, 1e5 seeded, full alpha sweep",
+                         "thorough": "17^3 lattice, all greys, all 6x256 gamut-edge colours, 12,000 seeded, full alpha sweep (x 16 space pairs = 307k pixels; the 32^3 + 1e5 first planned measured at ~4 h)",
                          "reference_widening": "5e-6 on the linear value (decode 3e-7 through the matrix + float32 evaluation), far below the encoder's half bucket 1/1022",
                          "compositional": "all 2^24 per pair is covered by C01 (every decode entry), C03 (coefficients, linearity), C12 (adaptation), C02 (every float through the encoder); this check shows the public pipeline is their composition"}
     run.sample(json.loads(lines[0]))
